@@ -206,6 +206,38 @@ def gen_cases(seed, tier, adv):
             add(es, "T", None, rng.choice(THREADS), "malformed")
         else:
             add(es, rng.choice("LX"), rng.choice([0, 1, 7, 1000, 100000]), rng.choice(THREADS), "malformed")
+    # S5: appended items + cancellation in mid-sort: a long prefix that is already in order followed by a disordered tail
+    # (what the worker sorts after new items were appended to a sorted match list), mostly below the 2000-element
+    # sequential threshold, where `recurse` sorts the shorter side by a nested call whose returned flag it drops and
+    # carries on with the longer side.  The flag is raised by the comparator at call k, k a stratified sample over the whole
+    # run (about 5.5 n comparisons for this shape, so the last stratum also covers "raised after the sort is done").
+    n_app, n_k = (60, 5) if tier == "quick" else (240, 8)
+    for c in range(n_app):
+        r = rng.random()
+        n = rng.randrange(200, 2001) if r < 0.8 else (rng.choice([1500, 1999, 2000, 2001]) if r < 0.9 else rng.randrange(2001, 2600))
+        kind = ("desc", "random", "few", "dupruns", "placeholders")[c % 5]
+        es = elems(kind, n, rng, adv)
+        tail = max(rng.randrange(21, 60), int(n * rng.uniform(0.03, 0.45)))
+        variant = c % 3
+        if variant != 1:  # every appended item belongs after the prefix; variant 1: appended items belong anywhere
+            es.sort(key=worker_key)
+        p = n - tail
+        pre, tl = sorted(es[:p], key=worker_key), es[p:]
+        if variant == 2:  # the tail is itself made of a few ordered runs
+            cut = sorted(rng.randrange(len(tl)) for _ in range(rng.randrange(1, 4)))
+            runs = [tl[a:b] for a, b in zip([0] + cut, cut + [len(tl)])]
+            rng.shuffle(runs)
+            tl = [e for run_ in runs for e in run_]
+            if tl == es[p:]:
+                rng.shuffle(tl)
+        else:
+            rng.shuffle(tl)
+        es = pre + tl
+        mode = "W" if c % 7 == 3 else "T"
+        span = 6.5 * n
+        for j in range(n_k):
+            k = 1 + int(span * (j + rng.random()) / n_k)
+            add(es, mode, k, rng.choice((1, 1, 1, 2, 8)), "append-cancel")
     if tier != "quick":
         # exhaustive: every array of length <= 7 over 3 scores (idx = position), and every array of length 22..23 over
         # {0,1} restricted to arrays with at most 3 ones (beyond the insertion-sort cutoff)
@@ -480,7 +512,8 @@ def run(ctx, broken):
     res["rule"] = ("streams from VERIF_SEED: (valid) arrays of 0..3000 elements (quick; up to 300000 thorough) in 11 arrangements -- random, in order, reversed, organ-pipe, few distinct scores, all equal, "
                    "nearly sorted, sawtooth, runs of duplicates, McIlroy's antiquicksort adversary played through the comparator of the real sort, 30% placeholders -- under the worker's total order, each "
                    "with 1, 2 and 8 threads; (weak) the same under a score-only order with ties; (cancel) the flag raised before the call or by the comparator at its k-th call; (malformed) comparators that "
-                   "are not strict weak orders and triples with duplicate idx; (adversarial-deep) 30000-element adversarial arrays, one process each; thorough adds every array of length <= 7 over 3 scores "
+                   "are not strict weak orders and triples with duplicate idx; (append-cancel) 200..2600 elements, a prefix already in order followed by a disordered tail of 3%..45% (appended items), the flag raised "
+                   "by the comparator at call k, k stratified over the whole run (0 .. 6.5 n); (adversarial-deep) 30000-element adversarial arrays, one process each; thorough adds every array of length <= 7 over 3 scores "
                    "and all 21..23-element 0/1 arrays with <= 3 ones. Compared with the extracted model: flag and exact final array (no cancel / cancel before the call), observables otherwise. Oracle on the "
                    "implementation: permutation, sortedness, flag semantics, thread-count independence, unique arrangement, no panic / abort. Non-trivial = distinct (comparator, cancel point, input) whose "
                    "model trace leaves the insertion-sort base case (len > 20). Branch counts below are measured on the model's ghost trace of the same inputs.")
